@@ -17,6 +17,7 @@ type SolverCfg struct {
 	Parallel int
 	Solvers  []string // subset of z3new, z3, cvc5
 	Seed     int
+	NoSecondWave bool
 }
 
 type solverRun struct {
@@ -38,6 +39,10 @@ func solverCmd(ctx context.Context, name, file string, timeout time.Duration, se
 		return exec.CommandContext(ctx, "z3", "-T:"+itoa(secs), "smt.random_seed="+itoa(seed), file)
 	case "cvc5":
 		return exec.CommandContext(ctx, "cvc5", "--tlimit="+itoa(secs*1000), "--seed="+itoa(seed), file)
+	case "z3new-nombqi":
+		return exec.CommandContext(ctx, "z3-new", "-T:"+itoa(secs), "smt.mbqi=false", "smt.random_seed="+itoa(seed), file)
+	case "z3-nombqi":
+		return exec.CommandContext(ctx, "z3", "-T:"+itoa(secs), "smt.mbqi=false", "smt.random_seed="+itoa(seed), file)
 	}
 	return nil
 }
@@ -67,9 +72,26 @@ func fmtInt(i int) string {
 func raceSolvers(file string, cfg SolverCfg) (best solverRun, all []solverRun) {
 	ctx, cancel := context.WithTimeout(context.Background(), cfg.Timeout+2*time.Second)
 	defer cancel()
+	// second wave: pattern-only configurations (no model-based instantiation), started only
+	// when the first wave has not answered quickly; their "sat" is not trusted (see below)
+	solvers := append([]string{}, cfg.Solvers...)
+	if !cfg.NoSecondWave {
+		solvers = append(solvers, "z3-nombqi", "z3new-nombqi")
+	}
+	cfg.Solvers = solvers
 	ch := make(chan solverRun, len(cfg.Solvers))
+	done := make(chan struct{})
+	defer close(done)
 	for _, s := range cfg.Solvers {
 		go func(name string) {
+			if strings.HasSuffix(name, "-nombqi") {
+				select {
+				case <-time.After(1200 * time.Millisecond):
+				case <-done:
+					ch <- solverRun{name: name, answer: "skipped"}
+					return
+				}
+			}
 			t0 := time.Now()
 			cmd := solverCmd(ctx, name, file, cfg.Timeout, cfg.Seed)
 			var out bytes.Buffer
@@ -81,6 +103,9 @@ func raceSolvers(file string, cfg SolverCfg) (best solverRun, all []solverRun) {
 			switch first {
 			case "unsat", "sat", "unknown":
 				r.answer = first
+				if first == "sat" && strings.HasSuffix(name, "-nombqi") {
+					r.answer = "unknown" // incomplete instantiation: a model claim is not reliable
+				}
 			case "timeout":
 				r.answer = "timeout"
 			default:
@@ -111,7 +136,7 @@ func raceSolvers(file string, cfg SolverCfg) (best solverRun, all []solverRun) {
 			}(len(cfg.Solvers) - got)
 			return best, all
 		}
-		if best.answer == "" || best.answer == "error" {
+		if r.answer != "skipped" && (best.answer == "" || best.answer == "error") {
 			best = r
 		}
 	}
